@@ -31,6 +31,16 @@ def parse_addr(tok, preds):
     raise ValueError(tok)
 
 
+class _Holder:
+    """makes a callback a bound method (`holder.call`): a new object on every attribute access, equal to the others"""
+
+    def __init__(self, f):
+        self.f = f
+
+    def call(self, *a):
+        return self.f(*a)
+
+
 class PyExec:
     def __init__(self, repo='/repo'):
         self.w = sim.World(repo)
@@ -48,16 +58,19 @@ class PyExec:
                 self.out.append(f"call {k} {int(cookie)}")
                 self.run_cb_ops(i, k)
                 return self.cbs.get((i, k), dict(ret=False))['ret']
-            self.tfun[(i, k)] = f
-        return self.tfun[(i, k)]
+            # odd callbacks are BOUND METHODS: every access yields a new (but equal) object, as with class-based applications
+            self.tfun[(i, k)] = f if k % 2 == 0 else _Holder(f)
+        h = self.tfun[(i, k)]
+        return h.call if isinstance(h, _Holder) else h
 
     def sub_cb(self, i, k):
         if (i, k) not in self.sfun:
             def g(prio, pgn, sa, ts, data, i=i, k=k):
                 self.out.append(f"deliver {k} {prio} {pgn} {sa} {fmt_list(data)}")
                 self.run_cb_ops(i, k)
-            self.sfun[(i, k)] = g
-        return self.sfun[(i, k)]
+            self.sfun[(i, k)] = g if k % 2 == 0 else _Holder(g)
+        h = self.sfun[(i, k)]
+        return h.call if isinstance(h, _Holder) else h
 
     def pred(self, i, k):
         if (i, k) not in self.pfun:
@@ -388,10 +401,13 @@ class PyExec:
     def dump_core(self, i):
         st = self.w.stacks[i]
         ecu = st.ecu
+        def key(f):
+            # a bound method of a holder is identified by the holder (every access makes a new method object)
+            return id(f.__self__) if isinstance(getattr(f, '__self__', None), _Holder) else id(f)
         inv_t = {id(f): k for (s, k), f in self.tfun.items() if s == i}
         inv_s = {id(f): k for (s, k), f in self.sfun.items() if s == i}
         inv_p = {id(f): k for (s, k), f in self.pfun.items() if s == i}
-        ts = ",".join(f"{inv_t.get(id(e['callback']), '?')}:{sim.us(e['delta_time'])}:{sim.us(e['deadline'])}:{int(e['cookie'])}" for e in ecu._timer_events)
+        ts = ",".join(f"{inv_t.get(key(e['callback']), '?')}:{sim.us(e['delta_time'])}:{sim.us(e['deadline'])}:{int(e['cookie'])}" for e in ecu._timer_events)
 
         def sa(a):
             if a is None:
@@ -399,7 +415,7 @@ class PyExec:
             if callable(a):
                 return f"p{inv_p.get(id(a), '?')}"
             return f"i{a}"
-        ss = ",".join(f"{inv_s.get(id(d['cb']), '?')}:{sa(d['dev_adr'])}" for d in ecu._subscribers)
+        ss = ",".join(f"{inv_s.get(key(d['cb']), '?')}:{sa(d['dev_adr'])}" for d in ecu._subscribers)
         return f"timers {ts} | subs {ss} | wake {st.wq.tokens}"
 
     def run(self, lines):
